@@ -447,9 +447,12 @@ def r2(ctx):
             if h:
                 want_hits.append("Err(storage-error)" if h == "err" else "Ok(%s)" % h)
         want = "[%s]" % ",".join(want_hits)
-        ok = sorted(looks) == sorted((k, 1) for k in prefixes) and got == want
+        # the order in which the stored prefixes are yielded is not demanded: put() checks every one of them (R1)
+        def multiset(txt):
+            return sorted(x for x in txt.strip("[]").split(",") if x) if txt.startswith("[") else txt
+        ok = sorted(looks) == sorted((k, 1) for k in prefixes) and multiset(got) == multiset(want)
         ctx.check(ok, "C02.R2b", pb.path, "parents[key=%s,stored=%s]" % (key, sorted(present)),
-                  "looks up %s and returns %s; spec: every prefix of the key down to the empty key is looked up once, deletion markers included (include_empty = true), hits returned shortest prefix first: %s" % (looks, got, want), pb.sp)
+                  "looks up %s and returns %s; spec: every prefix of the key down to the empty key is looked up once, deletion markers included (include_empty = true), every hit returned (in any order): %s" % (looks, got, want), pb.sp)
     ctx.floor("C02.R2a", 1)
     ctx.floor("C02.R2b", 5)
 
